@@ -310,7 +310,24 @@ func (p *c01) RunCase(ctx *runner.Ctx) runner.CaseResult {
 			}
 		case 3:
 			op = mon.RemoveUpdate(spec.Name, k, mon.Pick(r, mon.AttrNames))
-			if r.Intn(4) == 0 {
+			if r.Intn(6) == 0 {
+				// a map attribute and, in the same request, the attribute whose NAME is the dotted spelling of one of
+				// its members (flattened copies of nested data are common): two attributes, both written
+				u := &refmodel.Update{Actions: []refmodel.Action{
+					{Kind: "SET", Path: refmodel.Path{{Name: "cfg", Alias: "#m"}}, RHS: &refmodel.UExpr{Kind: "val", Val: ":m"}},
+					{Kind: "SET", Path: refmodel.Path{{Name: "cfg.mode", Alias: "#flat"}}, RHS: &refmodel.UExpr{Kind: "val", Val: ":s"}},
+				}}
+				if r.Intn(2) == 0 {
+					u.Actions[0], u.Actions[1] = u.Actions[1], u.Actions[0]
+				}
+				if r.Intn(3) == 0 {
+					u.Actions = append(u.Actions, refmodel.Action{Kind: "REMOVE", Path: refmodel.Path{{Name: "cfg.old", Alias: "#gone"}}})
+				}
+				names := map[string]string{}
+				expr := u.Render(names, refmodel.RenderOpts{})
+				op = adapt.Op{Kind: adapt.OpUpdate, Table: spec.Name, Key: k, Update: expr, UpdAST: u, Names: names,
+					Values: val.Item{":m": val.Map(map[string]val.V{"mode": val.Str(fmt.Sprint("nested", i))}), ":s": val.Str(fmt.Sprint("flat", i))}}
+			} else if r.Intn(4) == 0 {
 				// edit the list the other updates grow: drop an element and overwrite (or append) another one in ONE
 				// request, clauses in either order - every index refers to the list as it was before the request
 				ri, si := r.Intn(4), r.Intn(6)
